@@ -21,6 +21,7 @@ package main
 import (
 	"bytes"
 	"crypto/sha1"
+	"encoding/binary"
 	"encoding/hex"
 	"encoding/json"
 	"fmt"
@@ -105,6 +106,7 @@ type wstate struct {
 	w        *drv.Worker
 	cl       *dvc.Client
 	conf     string
+	prefer   string
 	known    map[uint32]*known   // every instance id ever issued on this worker
 	baseline map[string][]string // type|cfg -> single-version read snapshot of the first ever instance of that kind
 	last     *dump
@@ -139,7 +141,11 @@ var annPts = [][3]int{{10, 20, 30}, {11, 20, 30}, {100, 200, 300}, {63, 63, 63},
 var annTags = []string{"t", "tt", "t1", "u"}
 var roiSpans = [][4]int{{0, 0, 0, 3}, {0, 1, 2, 2}, {1, 0, 0, 0}, {5, 5, 5, 9}, {5, 6, 0, 1}, {20, 1, 1, 4}}
 var blkOffs = [][3]int{{0, 0, 0}, {32, 0, 0}, {0, 32, 0}, {32, 32, 32}, {64, 0, 0}}
-var liveTypes = []string{"keyvalue", "annotation", "roi", "uint8blk"}
+var liveTypes = []string{"keyvalue", "annotation", "roi", "uint8blk", "labelmap"}
+
+// the same two body ids in every labelmap instance: per-label state (indices, caches keyed by label) of different
+// instances must stay apart
+var lmLabels = []uint64{7, 9}
 
 func digest(b []byte) string {
 	if len(b) <= 160 {
@@ -169,6 +175,12 @@ func readURLs(typ string) []string {
 		u := []string{"raw/0_1_2/96_64_64/0_0_0"}
 		for _, o := range blkOffs {
 			u = append(u, fmt.Sprintf("raw/0_1_2/32_32_32/%d_%d_%d", o[0], o[1], o[2]))
+		}
+		return u
+	case "labelmap":
+		u := []string{"raw/0_1_2/96_64_64/0_0_0", "label/5_5_5", "label/40_5_5", "label/40_40_40"}
+		for _, l := range lmLabels {
+			u = append(u, fmt.Sprintf("size/%d", l), fmt.Sprintf("sparsevol-size/%d", l), fmt.Sprintf("sparsevol-coarse/%d", l))
 		}
 		return u
 	}
@@ -450,6 +462,8 @@ func (h *hist) randCfg(typ string) map[string]string {
 		if h.r.Intn(2) == 0 {
 			return map[string]string{"versioned": "true"}
 		}
+	case "labelmap":
+		return map[string]string{"BlockSize": "32,32,32"}
 	}
 	return nil
 }
@@ -586,6 +600,14 @@ func (h *hist) write(in *inst) error {
 		o := blkOffs[r.Intn(len(blkOffs))]
 		body = bytes.Repeat([]byte{byte(1 + h.seq%250)}, 32*32*32)
 		method, url, desc = "POST", fmt.Sprintf("%sraw/0_1_2/32_32_32/%d_%d_%d", base, o[0], o[1], o[2]), fmt.Sprintf("blkput %s %v", in.name, o)
+	case "labelmap":
+		o := blkOffs[r.Intn(len(blkOffs))]
+		l := lmLabels[r.Intn(len(lmLabels))]
+		body = make([]byte, 32*32*32*8)
+		for i := 0; i < len(body); i += 8 {
+			binary.LittleEndian.PutUint64(body[i:], l)
+		}
+		method, url, desc = "POST", fmt.Sprintf("%sraw/0_1_2/32_32_32/%d_%d_%d", base, o[0], o[1], o[2]), fmt.Sprintf("lmput %s label %d %v", in.name, l, o)
 	}
 	err := h.phase(in, desc, func() error {
 		rr, err := ws.w.HTTP(method, url, body)
@@ -710,9 +732,14 @@ func runHistory(ws *wstate, r *rand.Rand, tag string) error {
 	h.root = root
 	h.vers = []string{root}
 	ws.last = nil
-	pickType := func() string { return liveTypes[r.Intn(len(liveTypes))] }
+	pickType := func() string {
+		if ws.prefer != "" && r.Intn(4) != 0 {
+			return ws.prefer
+		}
+		return liveTypes[r.Intn(len(liveTypes))]
+	}
 	tA, tB := pickType(), pickType()
-	if r.Intn(3) == 0 {
+	if r.Intn(3) == 0 && ws.prefer == "" {
 		tA = "keyvalue"
 	}
 	var A, B *inst
@@ -1182,27 +1209,56 @@ func run(c *drv.Ctx) error {
 	go func() {
 		defer wg.Done()
 		if err := recreateDuringDeletion(c, bin, c.N(2, 6)); err != nil {
-			fail(fmt.Errorf("recreate scenario: %v", err))
+			if strings.Contains(err.Error(), drv.ErrWatchdog.Error()) {
+				// a request outlived the wall-clock watchdog: no verdict on this property
+				c.Inconclusive(fmt.Sprintf("recreate scenario: %v", err))
+			} else {
+				fail(fmt.Errorf("recreate scenario: %v", err))
+			}
 		}
 		if err := renameOntoDeletingName(c, bin); err != nil {
-			fail(fmt.Errorf("rename-onto scenario: %v", err))
+			if strings.Contains(err.Error(), drv.ErrWatchdog.Error()) {
+				// a request outlived the wall-clock watchdog: no verdict on this property
+				c.Inconclusive(fmt.Sprintf("rename-onto scenario: %v", err))
+			} else {
+				fail(fmt.Errorf("rename-onto scenario: %v", err))
+			}
+		}
+	}()
+
+	// ---- versions made on both sides of a restart keep their own storage keys
+	wg.Add(1)
+	go func() {
+		defer wg.Done()
+		if err := versionsAfterRestart(c, bin); err != nil {
+			if strings.Contains(err.Error(), drv.ErrWatchdog.Error()) {
+				// a request outlived the wall-clock watchdog: no verdict on this property
+				c.Inconclusive(fmt.Sprintf("versions-after-restart scenario: %v", err))
+			} else {
+				fail(fmt.Errorf("versions-after-restart scenario: %v", err))
+			}
 		}
 	}()
 
 	// ---- history layer
 	type wconf struct {
-		name string
-		o    drv.ConfOpts
-		n    int
+		name    string
+		o       drv.ConfOpts
+		n       int
+		prefer  string // data type most instances of this worker's histories get
+		restart int    // > 0: the server is restarted (cleanly) before history number `restart`
 	}
 	var confs []wconf
 	if c.Quick() {
-		confs = []wconf{{"seq-from-1", drv.ConfOpts{}, 10}, {"seq-from-0xFFFFFFF0", drv.ConfOpts{IIDStart: 0xFFFFFFF0}, 10}}
+		confs = []wconf{{name: "seq-from-1", n: 10}, {name: "seq-from-0xFFFFFFF0", o: drv.ConfOpts{IIDStart: 0xFFFFFFF0}, n: 10},
+			// label volumes with the label-index cache configured; the cache comes to life at a start that finds a labelmap instance
+			{name: "labelmap-index-cache", o: drv.ConfOpts{LabelCacheMB: 16}, n: 6, prefer: "labelmap", restart: 1}}
 	} else {
 		for i := 0; i < 3; i++ {
-			confs = append(confs, wconf{fmt.Sprintf("seq-from-1#%d", i), drv.ConfOpts{}, 40}, wconf{fmt.Sprintf("seq-from-0xFFFFFFF0#%d", i), drv.ConfOpts{IIDStart: 0xFFFFFFF0}, 40})
+			confs = append(confs, wconf{name: fmt.Sprintf("seq-from-1#%d", i), n: 40}, wconf{name: fmt.Sprintf("seq-from-0xFFFFFFF0#%d", i), o: drv.ConfOpts{IIDStart: 0xFFFFFFF0}, n: 40})
 		}
-		confs = append(confs, wconf{"seq-from-0xFFFFFFFD", drv.ConfOpts{IIDStart: 0xFFFFFFFD}, 30}, wconf{"random-ids", drv.ConfOpts{IIDGen: "random"}, 30})
+		confs = append(confs, wconf{name: "seq-from-0xFFFFFFFD", o: drv.ConfOpts{IIDStart: 0xFFFFFFFD}, n: 30}, wconf{name: "random-ids", o: drv.ConfOpts{IIDGen: "random"}, n: 30},
+			wconf{name: "labelmap-index-cache", o: drv.ConfOpts{LabelCacheMB: 16}, n: 30, prefer: "labelmap", restart: 2}, wconf{name: "labelmap-index-cache#2", o: drv.ConfOpts{LabelCacheMB: 16}, n: 20, prefer: "labelmap", restart: 1})
 	}
 	for ci, cf := range confs {
 		seeds := make([]int64, cf.n)
@@ -1223,8 +1279,23 @@ func run(c *drv.Ctx) error {
 				return
 			}
 			defer w.Kill()
-			ws := &wstate{c: c, w: w, cl: &dvc.Client{W: w}, conf: cf.name, known: map[uint32]*known{}, baseline: map[string][]string{}}
+			ws := &wstate{c: c, w: w, cl: &dvc.Client{W: w}, conf: cf.name, prefer: cf.prefer, known: map[uint32]*known{}, baseline: map[string][]string{}}
 			for i, sd := range seeds {
+				if cf.restart > 0 && i == cf.restart {
+					if err := ws.w.Exit("clean"); err != nil {
+						fail(fmt.Errorf("hist worker %s: stop before history %d: %v", cf.name, i, err))
+						return
+					}
+					w2, err := drv.StartWorker(bin, dir, drv.StartOpts{})
+					if err != nil {
+						fail(fmt.Errorf("hist worker %s: restart before history %d: %v; stderr: %s", cf.name, i, err, drv.FatalInStderr(w2.Stderr())))
+						return
+					}
+					defer w2.Kill()
+					w = w2
+					ws.w, ws.cl.W = w2, w2
+					c.Count("history_worker_restarts", 1)
+				}
 				if err := runHistory(ws, rand.New(rand.NewSource(sd)), fmt.Sprintf("%d.%d", ci, i)); err != nil {
 					if strings.Contains(err.Error(), drv.ErrWatchdog.Error()) {
 						c.Inconclusive(fmt.Sprintf("history %d.%d (%s): %v", ci, i, cf.name, err))
